@@ -119,6 +119,29 @@ UNUSUAL = {
 for _k, _v in UNUSUAL.items():
     CHECKS[_k]['text'] += ' ' + _v
 
+# wave 13: lifecycle, ordering, re-entrancy
+LIFECYCLE = {
+ 'C01': 'Ownership: every non-trivial case is decoded, the receiver adds to every container of the result, and the same bytes decoded again give what they gave before; encoding leaves the sender\'s values unchanged.',
+ 'C02': 'Pairs of reference messages arrive over a connection with the first read ending at every position inside the second.',
+ 'C03': 'Seven kinds of refused construction are interleaved with the 66000 messages of the serial run.',
+ 'C04': 'Nested reads with descriptors: the handler of a descriptor-carrying message reads what is still to come.',
+ 'C05': 'Aftermath also for descriptors: a dropped hostile peer\'s queued descriptors never reach another connection.',
+ 'C07': 'The application edits the class-level preference list in place (four edits) while a handshake waits for an answer: no mechanism offered twice, none kept in the list skipped, closed at the end.',
+ 'C08': 'The harness\'s callbacks return values of their own; two configurations with two calls that expect no reply.',
+ 'C10': 'Lifecycle: a method that unexports its own object and then returns / raises; a held Deferred whose object is unexported, or replaced at its path, before it fires / fails.',
+ 'C11': 'One scenario re-exports the same instance after unexporting it.',
+ 'C12': 'One exploration has one-shot handlers that cancel their own rule from inside the delivery.',
+ 'C14': 'One search lets a connection hold the same rule twice (two AddMatch, one RemoveMatch leaves one).',
+ 'C15': 'A name learnt from a peer and then described differently twice, every combination of replacement flags.',
+ 'C16': 'Devices whose computed property exports a further object when GetManagedObjects first reads it.',
+ 'C17': 'Assigning or setting the value a property already has is an event like any other (one notification).',
+ 'C18': 'Aftermath: after each of 11 operations that fail and are reported, a list of names is judged as before.',
+ 'C19': 'Method / Signal objects shared by two interfaces, removed from one, added back, removed from the other: counts checked through both at every step.',
+ 'C20': 'Nested delivery: the handler of a message takes delivery of everything still to come before it returns, for every admissible arrival order.',
+}
+for _k, _v in LIFECYCLE.items():
+    CHECKS[_k]['text'] += ' ' + _v
+
 REASON_TODO = 'check not built yet in this snapshot (planned in DESIGN.md section 3); nothing is claimed for it'
 
 def main():
